@@ -85,8 +85,8 @@ type event struct {
 	opts  WorkerOpts
 }
 
-func selfBin(chk *Check) string {
-	if chk.Race && RaceBin != "" {
+func selfBin(chk *Check, raceSet bool) string {
+	if (chk.Race || raceSet) && RaceBin != "" {
 		return RaceBin
 	}
 	p, err := os.Executable()
@@ -98,8 +98,15 @@ func selfBin(chk *Check) string {
 
 func startWorker(chk *Check, opts WorkerOpts, errPath string, ch chan<- event, wg *sync.WaitGroup) (*exec.Cmd, error) {
 	ob, _ := json.Marshal(opts)
-	cmd := exec.Command(selfBin(chk), "worker", string(ob))
-	cmd.Env = append(os.Environ(), "GOMAXPROCS=2", "GOTRACEBACK=all")
+	cmd := exec.Command(selfBin(chk, opts.RaceSet), "worker", string(ob))
+	procs := 2
+	if chk.Procs > 0 {
+		procs = chk.Procs
+	}
+	cmd.Env = append(os.Environ(), fmt.Sprintf("GOMAXPROCS=%d", procs), "GOTRACEBACK=all")
+	if opts.RaceSet {
+		cmd.Env = append(os.Environ(), "GOMAXPROCS=4", "GOTRACEBACK=all", "GORACE=halt_on_error=1")
+	}
 	ef, err := os.Create(errPath)
 	if err != nil {
 		return nil, err
@@ -130,13 +137,13 @@ func startWorker(chk *Check, opts WorkerOpts, errPath string, ch chan<- event, w
 					case "viol", "one":
 						var v violMsg
 						if json.Unmarshal(ln, &v) == nil {
-							ch <- event{shard: opts.Shard, viol: &v, opts: opts}
+							ch <- event{shard: opts.Slot, viol: &v, opts: opts}
 						}
 					case "sum":
 						var s Summary
 						if json.Unmarshal(ln, &s) == nil {
 							gotSum = true
-							ch <- event{shard: opts.Shard, sum: &s, opts: opts}
+							ch <- event{shard: opts.Slot, sum: &s, opts: opts}
 						}
 					case "dead":
 						var d deadMsg
@@ -155,7 +162,7 @@ func startWorker(chk *Check, opts WorkerOpts, errPath string, ch chan<- event, w
 			if werr == nil {
 				werr = fmt.Errorf("worker exited without summary")
 			}
-			ch <- event{shard: opts.Shard, exit: werr, dead: dead, errf: errPath, opts: opts}
+			ch <- event{shard: opts.Slot, exit: werr, dead: dead, errf: errPath, opts: opts}
 		}
 	}()
 	return cmd, nil
@@ -173,6 +180,13 @@ func classifyDeath(ev event) (class, info string) {
 		first = first[:1500]
 	}
 	switch {
+	case strings.Contains(s, "WARNING: DATA RACE"):
+		i := strings.Index(s, "WARNING: DATA RACE")
+		t := s[i:]
+		if len(t) > 2500 {
+			t = t[:2500]
+		}
+		return "data-race", t
 	case strings.Contains(s, "stack overflow") || strings.Contains(s, "goroutine stack exceeds"):
 		// keep the frames that repeat
 		return "fatal-stack-overflow", firstLines(s, 3) + " ... " + repeatingFrame(s)
@@ -284,23 +298,45 @@ func RunCheck(chk *Check, tier string, seed int64) int {
 	var wg sync.WaitGroup
 	cmds := map[int]*exec.Cmd{}
 	var mu sync.Mutex
-	launch := func(shard, fromLevel int, fromIdx int64, gen int) error {
-		opts := WorkerOpts{ID: chk.ID, Tier: tier, Shard: shard, Of: nw, Seed: seed,
+	// slots 0..nw-1 are the normal workers; slots nw.. are the -race workers that run only Race levels
+	nr := 0
+	for _, l := range chk.Levels(tier) {
+		if l.Race {
+			nr = nw / 2
+			if nr < 1 {
+				nr = 1
+			}
+		}
+	}
+	if os.Getenv("VERIF_NORACE") != "" { // debugging aid: skip the race-detector pass
+		nr = 0
+	}
+	if nr > 0 && RaceBin == "" {
+		fmt.Println("race binary not built (.bin/vcheck-race): run ./setup.sh")
+		return 2
+	}
+	launch := func(slot, fromLevel int, fromIdx int64, gen int) error {
+		shard, of, raceSet := slot, nw, false
+		if slot >= nw {
+			shard, of, raceSet = slot-nw, nr, true
+		}
+		opts := WorkerOpts{ID: chk.ID, Tier: tier, Shard: shard, Of: of, Seed: seed, Slot: slot, RaceSet: raceSet,
 			FromLevel: fromLevel, FromIdx: fromIdx,
-			Prog:     filepath.Join(work, fmt.Sprintf("w%d.prog", shard)),
-			Dump:     filepath.Join(work, fmt.Sprintf("w%d.dump", shard)),
+			Prog:     filepath.Join(work, fmt.Sprintf("w%d.prog", slot)),
+			Dump:     filepath.Join(work, fmt.Sprintf("w%d.dump", slot)),
 			Deadline: deadline, CaseMs: caseMs(chk, tier)}
 		os.Remove(opts.Prog)
-		cmd, err := startWorker(chk, opts, filepath.Join(work, fmt.Sprintf("w%d.%d.err", shard, gen)), ch, &wg)
+		cmd, err := startWorker(chk, opts, filepath.Join(work, fmt.Sprintf("w%d.%d.err", slot, gen)), ch, &wg)
 		if err != nil {
 			return err
 		}
 		mu.Lock()
-		cmds[shard] = cmd
+		cmds[slot] = cmd
 		mu.Unlock()
 		return nil
 	}
-	for i := 0; i < nw; i++ {
+	nslots := nw + nr
+	for i := 0; i < nslots; i++ {
 		if err := launch(i, 0, 0, 0); err != nil {
 			fmt.Println("cannot start worker:", err)
 			return 2
@@ -357,7 +393,7 @@ func RunCheck(chk *Check, tier string, seed int64) int {
 		fmt.Printf("VIOLATION property=%s replay=%s\n  class=%s case=%s\n  %s\n", chk.ID, p, class, c.Key(), strings.ReplaceAll(short, "\n", "\n  "))
 	}
 
-	for finished < nw {
+	for finished < nslots {
 		ev := <-ch
 		switch {
 		case ev.viol != nil:
@@ -484,7 +520,7 @@ func RunCheck(chk *Check, tier string, seed int64) int {
 					ran += ws[li].Ran
 				}
 			}
-			if len(levelStats) < nw {
+			if len(levelStats) < nslots {
 				done = false
 			}
 			if !done {
@@ -522,6 +558,7 @@ func RunCheck(chk *Check, tier string, seed int64) int {
 		"out_of_claim_skips":          total.Skips,
 		"distinct_outcomes_at_least":  maxOutcomes,
 		"workers":                     nw,
+		"race_workers":                nr,
 		"worker_restarts_after_death": restarts,
 		"worker_recycles":             recycles,
 		"unconfirmed_deaths":          unconfirmed,
